@@ -1,5 +1,277 @@
 /-
-  Props/C04.lean — property theorems for C04 (stub; to be filled in).
+  Props/C04.lean — C04: immutable structures and immutable fields never change after construction.
+
+  On the mutation machine of Sem/Mutate.lean (wrapper methods interpreted from the table regenerated
+  from the working tree): for an ImmutableStructure every top-level operation — attribute
+  assignment, deletion, every mutating method or operator of a field value — fails and leaves the
+  state exactly as it was, for every finite history (`immutable_run_frozen`); a field declared
+  immutable inside a mutable structure keeps its value under every history
+  (`immField_run_frozen`).  Both are conditional on every mutator row being guarded or routed
+  through a validated assignment; `tables_guarded` re-proves that for the current tree by `decide`.
+
+  A mutator applied to a typed wrapper obtained by indexing a field value acts on a defensive copy
+  (`immutable_step_state` covers `callNested`).  Objects obtained through the other accessors
+  (iteration, copies, items()/values(), reversed, +, *, dict(x) …) and retained constructor
+  arguments are decided on the real code by the alias probe of the harness; the accessor table
+  obligation `accessors_ok` (every element-returning accessor of list/dict/deque is overridden by
+  the wrapper) is re-proved on every run over the table regenerated from the working tree.
 -/
+import TypedpyModel.Props.C03
 namespace Typedpy.C04
+open Typedpy Typedpy.C03
+
+/-- every mutator is refused on immutable targets: it either checks `_raise_if_immutable()` or goes
+    through the (immutability-checking) validated assignment -/
+def GuardedTbl (tbl : List MethodRec) : Bool := tbl.all (fun r => r.guarded || r.validated)
+
+theorem setattr_immutable (O : Oracles) (c : ClassOpts) (fields : List (String × FieldDecl))
+    (s : Attrs) (f : String) (v : PyVal) (hi : c.immutable = true) :
+    setattrStep O c fields s f v = (s, .err .valueErr) := by
+  simp [setattrStep, hi]
+
+theorem delitem_immutable (c : ClassOpts) (s : Attrs) (f : String) (hi : c.immutable = true) :
+    delitemStep c s f = (s, .err .valueErr) := by
+  simp [delitemStep, hi]
+
+theorem call_immutable (O : Oracles) (c : ClassOpts) (fields : List (String × FieldDecl))
+    (s : Attrs) (f kind : String) (r : MethodRec) (m : NOp) (cur : PyVal)
+    (hi : c.immutable = true) (hr : (r.guarded || r.validated) = true) :
+    ∃ e, callStep O c fields s f kind r m cur = (s, .err e) := by
+  unfold callStep
+  cases hg : r.guarded
+  · simp only [hg, Bool.false_or] at hr
+    simp only [Bool.false_and, Bool.false_eq_true, if_false, hr, if_true]
+    cases applyNative kind m cur with
+    | error e => exact ⟨_, rfl⟩
+    | ok new =>
+      simp only []
+      split
+      · exact ⟨_, rfl⟩
+      · exact ⟨_, setattr_immutable O c fields s f new hi⟩
+  · simp [hi]
+
+/-- on an immutable structure every top-level operation raises and changes nothing -/
+theorem immutable_step_frozen (tbl : List MethodRec) (O : Oracles) (c : ClassOpts)
+    (fields : List (String × FieldDecl)) (s : Attrs) (op : Op)
+    (hi : c.immutable = true) (htbl : GuardedTbl tbl = true) (htop : TopOp op = true) :
+    ∃ e, step tbl O c fields s op = (s, .err e) := by
+  cases op with
+  | setattr f v => exact ⟨_, setattr_immutable O c fields s f v hi⟩
+  | delitem f => exact ⟨_, delitem_immutable c s f hi⟩
+  | callNested f k m => simp [TopOp] at htop
+  | call f m =>
+    simp only [step]
+    split
+    · rename_i fd cur _ _
+      split
+      · exact ⟨_, rfl⟩
+      · rename_i kind _
+        split
+        · exact ⟨_, rfl⟩
+        · rename_i r hfind
+          exact call_immutable O c fields s f kind r m cur hi
+            ((List.all_eq_true.mp htbl) r (findRec_mem tbl kind m.name r hfind))
+    · exact ⟨_, rfl⟩
+
+theorem nested_immutable (c : ClassOpts) (s : Attrs) (f : String) (k : PyVal) (kind : String)
+    (r : MethodRec) (m : NOp) (cur elem : PyVal) (hi : c.immutable = true) :
+    (nestedStep c s f k kind r m cur elem).1 = s := by
+  unfold nestedStep
+  split
+  · rfl
+  · cases applyNative kind m elem with
+    | error e => rfl
+    | ok new => simp [hi]
+
+/-- on an immutable structure NO operation — including a mutator called on a typed wrapper
+    obtained by indexing a field value (it acts on a defensive copy) — changes the state -/
+theorem immutable_step_state (tbl : List MethodRec) (O : Oracles) (c : ClassOpts)
+    (fields : List (String × FieldDecl)) (s : Attrs) (op : Op)
+    (hi : c.immutable = true) (htbl : GuardedTbl tbl = true) :
+    (step tbl O c fields s op).1 = s := by
+  cases htop : TopOp op
+  · cases op with
+    | callNested f k m =>
+      simp only [step]
+      repeat' split
+      all_goals first | rfl | exact nested_immutable c s f k _ _ m _ _ hi
+    | _ => simp [TopOp] at htop
+  · rcases immutable_step_frozen tbl O c fields s op hi htbl htop with ⟨e, he⟩
+    rw [he]
+
+/-- **C04 (structures)**: no finite history of operations changes an ImmutableStructure -/
+theorem immutable_run_frozen (tbl : List MethodRec) (O : Oracles) (c : ClassOpts)
+    (fields : List (String × FieldDecl)) (hi : c.immutable = true) (htbl : GuardedTbl tbl = true) :
+    ∀ (ops : List Op) (s : Attrs), (run tbl O c fields s ops).1 = s
+  | [], s => rfl
+  | op :: rest, s => by
+    simp only [run]
+    rw [immutable_step_state tbl O c fields s op hi htbl]
+    exact immutable_run_frozen tbl O c fields hi htbl rest s
+
+/-- every operation of such a history raises -/
+theorem immutable_run_all_raise (tbl : List MethodRec) (O : Oracles) (c : ClassOpts)
+    (fields : List (String × FieldDecl)) (hi : c.immutable = true) (htbl : GuardedTbl tbl = true) :
+    ∀ (ops : List Op) (s : Attrs), ops.all TopOp = true →
+      (run tbl O c fields s ops).2.all (fun o => o != .ok) = true
+  | [], s, _ => rfl
+  | op :: rest, s, hops => by
+    simp only [List.all_cons, and_true_iff] at hops
+    simp only [run]
+    rcases immutable_step_frozen tbl O c fields s op hi htbl hops.1 with ⟨e, he⟩
+    rw [he]
+    simp only [List.all_cons, and_true_iff]
+    exact ⟨by simp, immutable_run_all_raise tbl O c fields hi htbl rest s hops.2⟩
+
+/-! ### immutable field inside a mutable structure -/
+
+theorem setattr_immField (O : Oracles) (c : ClassOpts) (fields : List (String × FieldDecl))
+    (s : Attrs) (f g : String) (v w : PyVal)
+    (hf : c.immFields.contains f = true) (hfield : (lookup f fields).isSome = true)
+    (hset : lookup f s = some w) :
+    lookup f (setattrStep O c fields s g v).1 = some w := by
+  unfold setattrStep
+  split
+  · exact hset
+  · cases hgf : (f == g)
+    · -- another attribute
+      have keep : ∀ u, lookup f (assocSet g u s) = some w := fun u => by
+        rw [lookup_assocSet_ne g f u hgf]; exact hset
+      repeat' split
+      all_goals first | exact hset | exact keep _
+    · have : f = g := by simpa using hgf
+      subst this
+      split
+      · rename_i hl; rw [hl] at hfield; cases hfield
+      · split
+        · exact hset
+        · split
+          · exact hset
+          · split
+            · exact hset
+            · rename_i hcon
+              rw [hf, hset] at hcon
+              exact absurd rfl hcon
+
+theorem delitem_immField (c : ClassOpts) (s : Attrs) (f g : String) (w : PyVal)
+    (hf : c.immFields.contains f = true) (hset : lookup f s = some w) :
+    lookup f (delitemStep c s g).1 = some w := by
+  unfold delitemStep
+  cases hgf : (f == g)
+  · repeat' split
+    all_goals first | exact hset | (rw [lookup_assocDel_ne g f hgf]; exact hset)
+  · have : f = g := by simpa using hgf
+    subst this
+    split
+    · exact hset
+    · simp only [hf, if_true]; exact hset
+
+theorem call_immField (O : Oracles) (c : ClassOpts) (fields : List (String × FieldDecl))
+    (s : Attrs) (f g kind : String) (r : MethodRec) (m : NOp) (cur w : PyVal)
+    (hf : c.immFields.contains f = true) (hfield : (lookup f fields).isSome = true)
+    (hset : lookup f s = some w) (hr : (r.guarded || r.validated) = true) :
+    lookup f (callStep O c fields s g kind r m cur).1 = some w := by
+  unfold callStep
+  split
+  · exact hset
+  · cases applyNative kind m cur with
+    | error e => exact hset
+    | ok new =>
+      simp only []
+      cases hv : r.validated
+      · -- not validated ⇒ guarded; the guard did not fire, so `g` is not an immutable field
+        simp only [hv, Bool.or_false] at hr
+        rename_i hng
+        simp only [hr, Bool.true_and, Bool.or_eq_true, not_or, Bool.not_eq_true] at hng
+        have hgf : (f == g) = false := by
+          cases h : (f == g)
+          · rfl
+          · have : f = g := by simpa using h
+            subst this
+            rw [hf] at hng; exact absurd hng.2 (by simp)
+        simp only [Bool.false_eq_true, if_false]
+        split
+        · rw [lookup_assocSet_ne g f new hgf]; exact hset
+        · exact hset
+      · simp only [if_true]
+        split
+        · exact hset
+        · exact setattr_immField O c fields s f g new w hf hfield hset
+
+/-- an immutable field keeps its value under every top-level operation -/
+theorem immField_step_frozen (tbl : List MethodRec) (O : Oracles) (c : ClassOpts)
+    (fields : List (String × FieldDecl)) (s : Attrs) (f : String) (w : PyVal) (op : Op)
+    (hf : c.immFields.contains f = true) (hfield : (lookup f fields).isSome = true)
+    (hset : lookup f s = some w) (htbl : GuardedTbl tbl = true) (htop : TopOp op = true) :
+    lookup f (step tbl O c fields s op).1 = some w := by
+  cases op with
+  | setattr g v => exact setattr_immField O c fields s f g v w hf hfield hset
+  | delitem g => exact delitem_immField c s f g w hf hset
+  | callNested g k m => simp [TopOp] at htop
+  | call g m =>
+    simp only [step]
+    split
+    · rename_i fd cur _ _
+      split
+      · exact hset
+      · rename_i kind _
+        split
+        · exact hset
+        · rename_i r hfind
+          exact call_immField O c fields s f g kind r m cur w hf hfield hset
+            ((List.all_eq_true.mp htbl) r (findRec_mem tbl kind m.name r hfind))
+    · exact hset
+
+/-- **C04 (fields)**: a field declared immutable inside a mutable structure keeps its value under
+    every finite history of top-level operations -/
+theorem immField_run_frozen (tbl : List MethodRec) (O : Oracles) (c : ClassOpts)
+    (fields : List (String × FieldDecl)) (f : String) (w : PyVal)
+    (hf : c.immFields.contains f = true) (hfield : (lookup f fields).isSome = true)
+    (htbl : GuardedTbl tbl = true) :
+    ∀ (ops : List Op) (s : Attrs), ops.all TopOp = true → lookup f s = some w →
+      lookup f (run tbl O c fields s ops).1 = some w
+  | [], s, _, hs => hs
+  | op :: rest, s, hops, hs => by
+    simp only [List.all_cons, and_true_iff] at hops
+    simp only [run]
+    exact immField_run_frozen tbl O c fields f w hf hfield htbl rest _ hops.2
+      (immField_step_frozen tbl O c fields s f w op hf hfield hs htbl hops.1)
+
+/-- the table regenerated from the current working tree refuses every mutator on immutables -/
+theorem tables_guarded : GuardedTbl Generated.wrappers = true := by decide
+
+/-- members of list / dict / deque that return no reference to an element -/
+def refFree : List String :=
+  ["__contains__", "__len__", "count", "index", "keys", "__reversed__:dict", "__iter__:dict"]
+
+/-- every accessor that can hand out element references is overridden by the wrapper (so that it
+    can apply the defensive copy) -/
+def AccessorsOk (tbl : List AccessorRec) : Bool :=
+  tbl.all (fun a => a.overridden || refFree.contains a.method
+                      || refFree.contains (a.method ++ ":" ++ a.wrapper))
+
+theorem accessors_ok : AccessorsOk Generated.accessors = true := by decide
+
+/-! ### non-vacuity and the known finding -/
+
+def imC : ClassOpts := { name := "I", required := ["a"], addl := false, immutable := true, accepts := ["I"] }
+def imFields : List (String × FieldDecl) :=
+  [("a", .seqOf .list (.integer {}) {}), ("n", .seqOf .list (.seqOf .list (.integer {}) {}) {})]
+def imStart : Attrs := [("a", .list [.int 1, .int 2]), ("n", .list [.list [.int 1]])]
+
+theorem immutable_example :
+    (run Generated.wrappers C03.exO imC imFields imStart
+      [.call "a" (.append (.int 3)), .setattr "a" (.list []), .delitem "n", .call "a" .sort,
+       .call "a" (.iadd [.int 9]), .call "a" (.delitem (.int 0))]).2
+      = [.err .valueErr, .err .valueErr, .err .valueErr, .err .valueErr, .err .valueErr, .err .valueErr] := by
+  decide
+
+/-- a mutator called on the typed wrapper obtained by `x.n[0]` acts on a defensive copy -/
+theorem nested_immutable_example :
+    (match (step Generated.wrappers C03.exO imC imFields imStart
+        (.callNested "n" (.int 0) (.append (.int 5)))) with
+      | ([_, ("n", .list [.list [.int 1]])], .ok) => true
+      | _ => false) = true := by
+  decide
+
 end Typedpy.C04
